@@ -25,12 +25,12 @@ def run(ctx):
     q = ctx.quick()
     P.model_check(ctx, ["Pbf_nostop.cfg"] if q else ["Pbf_nostop.cfg", "Pbf_nostop_big.cfg"])
     # S -> C : forced schedules
-    forced = P.gen_forced(ctx, 150 if q else 3000)
+    forced = P.gen_forced(ctx, 150 if q else 8000)
     rng = random.Random(ctx.seed)
     for c in forced:
         c["variant"] = rng.randrange(1000)
         c["script"] = ["scanall", "err"]
-    walks = walk_cases(ctx, 200 if q else 3000)
+    walks = walk_cases(ctx, 200 if q else 10000)
     cases = forced + walks
     ctx.tick("model_check+gen")
     recs = P.run_pipe(ctx, cases)
@@ -50,7 +50,7 @@ def run(ctx):
     P.confirm(ctx, cases, recs, bad, PREF, lambda cs: P.run_pipe(ctx, cs, shards=1))
     ctx.tick("judge")
     # race clause: real concurrency + jitter under the race detector
-    jit = jitter_cases(ctx, 40 if q else 400)
+    jit = jitter_cases(ctx, 40 if q else 1000)
     jrecs = P.run_pipe(ctx, jit, race=True, shards=8)
     jbad = P.judge_runs(ctx, jrecs, PREF)
     P.confirm(ctx, jit, jrecs, jbad, PREF, lambda cs: P.run_pipe(ctx, cs, race=True, shards=1))
